@@ -33,6 +33,7 @@ package z
 //@   ensures [C19] #value result == GcBit(bl, idx)
 
 //@ func (bl *Bloom) Add(hash uint64)
+//@   holds defaultPolicy
 //@   uses GcPosInRange
 //@   requires GcWfBloom(bl)
 //@   modifies bl.bitset[*], bl.ElemNum
@@ -51,6 +52,7 @@ package z
 //@   ensures [C19] #value result == GcHasV(bl.bitset, bl.shift, bl.size, bl.setLocs, hash)
 
 //@ func (bl *Bloom) AddIfNotHas(hash uint64) bool
+//@   holds defaultPolicy
 //@   requires GcWfBloom(bl)
 //@   modifies bl.bitset[*], bl.ElemNum
 //@   ensures [C19] #result result == !old(GcHas(bl, hash))
